@@ -563,6 +563,12 @@ def corr_css_stream(check, ctx, c, rng):
                 if one is not None:
                     ctx.violate('stream writer = one-shot for every chunking', w,
                                 {'stream': 'raises', 'one_shot': one.hex()})
+                    continue
+                line = ' '.join([encb(o) if o else '-' for o in outs] + ['RAISE']) + ' | X'
+                if m is not None:
+                    mm = m.rsplit('|', 1)[0]
+                    if norm(mm) != norm(line):
+                        ctx.disagree('StreamWriter over CPython inner codecs (raising write)', w, line, mm)
                 continue
             total = b''.join(outs)
             if one is not None and not one.startswith(total):
